@@ -518,7 +518,8 @@ def project(job, raw):
             if len(sets) != ns:
                 sets = [[] for _ in range(ns)]
             rec["pol"] = sets
-            rec["polok"] = all(len(s) > 0 for s in sets)
+            # a policy produced by the solver must consist of LISTED actions (unlisted ones exist only in supplied policies)
+            rec["polok"] = all(len(s) > 0 and min(s) <= mdp["na"] for s in sets)
             rec["pick"] = [s[0] if s else 1 for s in sets]
         elif ev["e"] == "solve_end":
             rec["polok"] = False
@@ -567,7 +568,7 @@ def project(job, raw):
         trace["haspol0"] = bool(mdp["render"].get("has_init_policy"))
         trace["injectedpol"] = any((inj or {}).get("policy") is not None for inj in (job.get("injects") or []))
         if trace["haspol0"]:
-            sets = policy_sets(T.action_array(mdp["render"], mdp["na"])[np.array(mdp["pol0"])], avecs, adiv, aoff)
+            sets = policy_sets(T.action_array(mdp["render"], mdp.get("nax", mdp["na"]))[np.array(mdp["pol0"])], avecs, adiv, aoff)
             trace["pol0"] = [s[0] for s in sets]
         else:
             trace["pol0"] = [1] * ns
